@@ -91,7 +91,7 @@ def tasks(tier):
     if tier == "thorough":
         ts += [("live", "AsyncFIFOBuffered", 1, 2, tier, "rr")]
     ts += [("ctor", v, e) for v in ("AsyncFIFO", "AsyncFIFOBuffered") for e in (False, True)]
-    ts += [("elaborates",), ("gray", 5 if tier == "quick" else 8)]
+    ts += [("elaborates",), ("domain-names",), ("gray", 5 if tier == "quick" else 8)]
     return ts
 
 
@@ -377,6 +377,62 @@ def check_live(variant, width, depth, tier="quick", only=None):
 # ------------------------------------------------------------------------------------------------
 # constructors
 
+def check_domain_names():
+    """The two sides live in the domains the user names: with r_domain='rd', w_domain='wr' every statement, memory port and
+    late-bound clock / reset of the elaborated FIFO (inner FIFO and synchronisers included) is in 'rd' or 'wr' and no other
+    domain is used or created; the write side's registers are clocked by 'wr' only and the read side's by 'rd' only (one
+    accepted write then one read on the real simulator, next to an unrelated default-named pair of domains)."""
+    from amaranth.hdl import Module, ClockDomain, Fragment
+    from amaranth.hdl._xfrm import DomainCollector
+    from amaranth.lib import fifo as F
+    from amaranth.sim import Simulator
+    obs = []
+    for variant, depth in (("AsyncFIFO", 4), ("AsyncFIFOBuffered", 5), ("AsyncFIFOBuffered", 2)):
+        nm = f"domains:{variant}(depth={depth},r_domain='rd',w_domain='wr')"
+        dut = getattr(F, variant)(width=4, depth=depth, r_domain="rd", w_domain="wr")
+        col = DomainCollector()
+        col(Fragment.get(dut, None))
+        used = set(col.used_domains) | set(col.defined_domains)
+        ok = used <= {"rd", "wr"} and {"rd", "wr"} <= used
+        obs.append({"name": f"{nm}::only-the-named-domains", "kind": "post", "status": "proved" if ok else "refuted", "backend": "closed", "time_s": 0.0,
+                    **({} if ok else {"failing_input": {"domains used or defined by the elaborated FIFO": sorted(used), "expected": ["rd", "wr"]}})})
+        # behaviour: clocks of unrelated domains named 'read' / 'write' run all the time and must not matter
+        dut = getattr(F, variant)(width=4, depth=depth, r_domain="rd", w_domain="wr")
+        m = Module()
+        for dn in ("rd", "wr", "read", "write"):
+            m.domains += ClockDomain(dn)
+        m.submodules.dut = dut
+        sim = Simulator(m)
+        sim.add_clock(1e-6, domain="wr")
+        sim.add_clock(1.3e-6, domain="rd")
+        got = []
+
+        async def writer(ctx):
+            for v in (9, 6, 3):
+                ctx.set(dut.w_data, v)
+                ctx.set(dut.w_en, 1)
+                await ctx.tick("wr").until(dut.w_rdy)
+            ctx.set(dut.w_en, 0)
+
+        async def reader(ctx):
+            ctx.set(dut.r_en, 1)
+            for _ in range(3):
+                (data,) = await ctx.tick("rd").sample(dut.r_data).until(dut.r_rdy)
+                got.append(data)
+        sim.add_testbench(writer)
+        sim.add_testbench(reader)
+        try:
+            sim.run_until(60e-6)
+        except Exception as e:
+            got.append(repr(e)[:100])
+        ok2 = got == [9, 6, 3]
+        obs.append({"name": f"{nm}::entries-cross-with-only-rd-and-wr-clocked", "kind": "bounded", "status": "proved" if ok2 else "refuted", "backend": "cpython",
+                    "time_s": 0.0, **({} if ok2 else {"failing_input": {"written": [9, 6, 3], "read": got,
+                                                                        "how": "real Simulator; clocks on 'wr' and 'rd' only, domains 'read' and 'write' exist but never toggle"}})})
+    return {"task": "domain-names", "paths": 0, "solver_s": 0.0, "obligations": obs,
+            "bounded": [{"name": "renamed-domain FIFOs pass three entries", "bound": "3 configurations, 3 entries", "cases": 3, "failures": 0}]}
+
+
 def check_ctor(variant, exact):
     """depth rounding for ALL depths (tier U), with FIFOInterface.__init__ replaced by its contract (records its arguments)"""
     from amaranth.lib import fifo as F
@@ -492,6 +548,8 @@ def run_task(task):
         return check_fifo(task[1], task[2], task[3])
     if k == "live":
         return check_live(task[1], task[2], task[3], task[4], task[5] if len(task) > 5 else None)
+    if k == "domain-names":
+        return check_domain_names()
     if k == "ctor":
         return check_ctor(task[1], task[2])
     if k == "elaborates":
